@@ -24,7 +24,14 @@
 (*                   for the next handler of the snapshot: enqueue, or     *)
 (*                   drop when the handler's buffered channel is full.     *)
 (*   Register        Recv(): append to messageHandlers, start goroutines.  *)
-(*   Cancel          the receiver's context is cancelled.                  *)
+(*   End             the receiver's context ends, in any of the ways a Go  *)
+(*                   context can end: cancel() ("cancel"), its deadline or *)
+(*                   timeout expires ("deadline": ctx.Err() is             *)
+(*                   DeadlineExceeded, not Canceled), or a parent context  *)
+(*                   is cancelled ("parent"). The code asks ctx.Err() !=   *)
+(*                   nil, so every kind counts (Honoured = EndKinds);      *)
+(*                   MC_DeadlineIgnored is the wrong variant that only     *)
+(*                   reacts to Canceled.                                   *)
 (*   RemoveHandler   removeHandler(): swap-with-last removal. In libp2p it *)
 (*                   runs on its own lifecycle goroutine (Lifecycle =      *)
 (*                   "separate"), in local it is done by the processing    *)
@@ -58,6 +65,8 @@ CONSTANTS Senders,      \* channel instances that send (each has its own counter
           Lifecycle,    \* "separate" (libp2p) | "inline" (local)
           SecondCheck,  \* TRUE: the code as written (ctx.Err() re-checked after dequeue)
           Filter,       \* TRUE: the code as written (duplicate filter in place)
+          EndKinds,     \* the ways a receiver's context may end in this configuration
+          Honoured,     \* the kinds the check after the dequeue reacts to (the code: all of them)
           MaxFail,      \* publication attempts that may fail
           GiveBack      \* FALSE: the code as written (a failed publication keeps its sequence number)
 
@@ -66,6 +75,7 @@ VARIABLES counter,   \* [Senders -> Nat]            channel.counter
           dl,        \* set of in-flight deliver() calls [id, c, m, snap, i]
           handlers,  \* Seq(Handlers)               channel.messageHandlers
           ctxDone,   \* [Handlers -> BOOLEAN]       receiver's ctx.Err() != nil
+          kind,      \* [Handlers -> EndKinds \cup {"live"}]  how it ended
           removed,   \* [Handlers -> BOOLEAN]       removeHandler ran for it
           pc,        \* [Handlers -> PCs]           processing goroutine
           queue,     \* [Handlers -> Seq(Msgs)]     messageHandler.channel
@@ -77,7 +87,7 @@ VARIABLES counter,   \* [Senders -> Nat]            channel.counter
           book       \* bookkeeping of Send calls: [calls : [Senders -> Nat], tagged : [Msgs -> SUBSET Nat],
                      \* fails : Nat]; tagged[m] = the Send calls (by ordinal) whose message carries number m
 
-vars == <<counter, budget, dl, handlers, ctxDone, removed, pc, queue, cur, seen, ninv, stale, acc, book>>
+vars == <<counter, budget, dl, handlers, ctxDone, kind, removed, pc, queue, cur, seen, ninv, stale, acc, book>>
 
 Msgs  == [s : Senders, n : 1..MaxSend]
 NoMsg == [s |-> "none", n |-> 0]
@@ -92,6 +102,7 @@ Init ==
     /\ dl = {}
     /\ handlers = <<>>
     /\ ctxDone = [h \in Handlers |-> FALSE]
+    /\ kind = [h \in Handlers |-> "live"]
     /\ removed = [h \in Handlers |-> FALSE]
     /\ pc = [h \in Handlers |-> "none"]
     /\ queue = [h \in Handlers |-> <<>>]
@@ -113,7 +124,7 @@ Send(s) ==
          /\ counter' = [counter EXCEPT ![s] = @ + 1]
          /\ budget' = [budget EXCEPT ![m] = @ + 1 + MaxRetx]
          /\ book' = [book EXCEPT !.calls[s] = @ + 1, !.tagged[m] = @ \cup {book.calls[s] + 1}]
-    /\ UNCHANGED <<dl, handlers, ctxDone, removed, pc, queue, cur, seen, ninv, stale, acc>>
+    /\ UNCHANGED <<dl, handlers, ctxDone, kind, removed, pc, queue, cur, seen, ninv, stale, acc>>
 
 \* publisher.Publish returns an error: this attempt delivers nothing
 FailPublish(m) ==
@@ -121,7 +132,7 @@ FailPublish(m) ==
     /\ budget' = [budget EXCEPT ![m] = @ - 1]
     /\ book' = [book EXCEPT !.fails = @ + 1]
     /\ counter' = IF GiveBack /\ counter[m.s] = m.n THEN [counter EXCEPT ![m.s] = @ - 1] ELSE counter
-    /\ UNCHANGED <<dl, handlers, ctxDone, removed, pc, queue, cur, seen, ninv, stale, acc>>
+    /\ UNCHANGED <<dl, handlers, ctxDone, kind, removed, pc, queue, cur, seen, ninv, stale, acc>>
 
 \* in-flight deliver() calls form a multiset: the id (smallest unused number)
 \* only keeps two identical calls apart; c tags calls a trace has pinned (0 = none)
@@ -134,7 +145,7 @@ StartDeliverC(m, c) ==
     /\ budget' = [budget EXCEPT ![m] = @ - 1]
     /\ dl' = IF handlers = <<>> THEN dl
              ELSE dl \cup {[id |-> FreshId, c |-> c, m |-> m, snap |-> handlers, i |-> 1]}
-    /\ UNCHANGED <<counter, handlers, ctxDone, removed, pc, queue, cur, seen, ninv, stale, acc, book>>
+    /\ UNCHANGED <<counter, handlers, ctxDone, kind, removed, pc, queue, cur, seen, ninv, stale, acc, book>>
 
 StartDeliver(m) == StartDeliverC(m, 0)
 
@@ -148,7 +159,7 @@ TrySend(d) ==
                 THEN /\ queue' = [queue EXCEPT ![h] = Append(@, d.m)]
                      /\ acc' = [acc EXCEPT ![h] = @ \cup {d.m}]
                 ELSE UNCHANGED <<queue, acc>>          \* "handler too slow, dropping message"
-    /\ UNCHANGED <<counter, budget, handlers, ctxDone, removed, pc, cur, seen, ninv, stale, book>>
+    /\ UNCHANGED <<counter, budget, handlers, ctxDone, kind, removed, pc, cur, seen, ninv, stale, book>>
 
 ---------------------------------------------------------------------------
 \* receiver lifecycle
@@ -164,12 +175,14 @@ Register(h) ==
     /\ pc[h] = "none"
     /\ handlers' = Append(handlers, h)
     /\ pc' = [pc EXCEPT ![h] = "select"]
-    /\ UNCHANGED <<counter, budget, dl, ctxDone, removed, queue, cur, seen, ninv, stale, acc, book>>
+    /\ UNCHANGED <<counter, budget, dl, ctxDone, kind, removed, queue, cur, seen, ninv, stale, acc, book>>
 
-Cancel(h) ==
-    /\ ~ctxDone[h]
+End(h, k) ==
+    /\ ~ctxDone[h] /\ k \in EndKinds
     /\ ctxDone' = [ctxDone EXCEPT ![h] = TRUE]
+    /\ kind' = [kind EXCEPT ![h] = k]
     /\ UNCHANGED <<counter, budget, dl, handlers, removed, pc, queue, cur, seen, ninv, stale, acc, book>>
+Cancel(h) == \E k \in EndKinds : End(h, k)
 
 \* libp2p: `go func() { <-ctx.Done(); c.removeHandler(messageHandler) }()`
 RemoveHandler(h) ==
@@ -177,7 +190,7 @@ RemoveHandler(h) ==
     /\ ctxDone[h] /\ pc[h] # "none" /\ ~removed[h]
     /\ handlers' = SwapRemove(handlers, h)
     /\ removed' = [removed EXCEPT ![h] = TRUE]
-    /\ UNCHANGED <<counter, budget, dl, ctxDone, pc, queue, cur, seen, ninv, stale, acc, book>>
+    /\ UNCHANGED <<counter, budget, dl, ctxDone, kind, pc, queue, cur, seen, ninv, stale, acc, book>>
 
 \* processing goroutine, `case <-ctx.Done()`; local removes the handler here.
 ExitOnDone(h) ==
@@ -187,7 +200,7 @@ ExitOnDone(h) ==
           THEN /\ handlers' = SwapRemove(handlers, h)
                /\ removed' = [removed EXCEPT ![h] = TRUE]
           ELSE UNCHANGED <<handlers, removed>>
-    /\ UNCHANGED <<counter, budget, dl, ctxDone, queue, cur, seen, ninv, stale, acc, book>>
+    /\ UNCHANGED <<counter, budget, dl, ctxDone, kind, queue, cur, seen, ninv, stale, acc, book>>
 
 ---------------------------------------------------------------------------
 \* processing goroutine
@@ -198,17 +211,17 @@ Dequeue(h) ==
     /\ queue' = [queue EXCEPT ![h] = Tail(@)]
     /\ stale' = [stale EXCEPT ![h] = ctxDone[h]]
     /\ pc' = [pc EXCEPT ![h] = "dequeued"]
-    /\ UNCHANGED <<counter, budget, dl, handlers, ctxDone, removed, seen, ninv, acc, book>>
+    /\ UNCHANGED <<counter, budget, dl, handlers, ctxDone, kind, removed, seen, ninv, acc, book>>
 
 CheckCtx(h) ==
     /\ pc[h] = "dequeued"
-    /\ IF SecondCheck /\ ctxDone[h]
+    /\ IF SecondCheck /\ ctxDone[h] /\ kind[h] \in Honoured
           THEN /\ pc' = [pc EXCEPT ![h] = "select"]
                /\ cur' = [cur EXCEPT ![h] = NoMsg]
                /\ stale' = [stale EXCEPT ![h] = FALSE]
           ELSE /\ pc' = [pc EXCEPT ![h] = "checked"]
                /\ UNCHANGED <<cur, stale>>
-    /\ UNCHANGED <<counter, budget, dl, handlers, ctxDone, removed, queue, seen, ninv, acc, book>>
+    /\ UNCHANGED <<counter, budget, dl, handlers, ctxDone, kind, removed, queue, seen, ninv, acc, book>>
 
 FilterDup(h) ==
     /\ pc[h] = "checked"
@@ -219,19 +232,19 @@ FilterDup(h) ==
           ELSE /\ pc' = [pc EXCEPT ![h] = "passed"]
                /\ seen' = [seen EXCEPT ![h] = @ \cup {cur[h]}]
                /\ UNCHANGED cur
-    /\ UNCHANGED <<counter, budget, dl, handlers, ctxDone, removed, queue, ninv, stale, acc, book>>
+    /\ UNCHANGED <<counter, budget, dl, handlers, ctxDone, kind, removed, queue, ninv, stale, acc, book>>
 
 Invoke(h) ==
     /\ pc[h] = "passed"
     /\ ninv' = [ninv EXCEPT ![h][cur[h]] = @ + 1]
     /\ pc' = [pc EXCEPT ![h] = "running"]
-    /\ UNCHANGED <<counter, budget, dl, handlers, ctxDone, removed, queue, cur, seen, stale, acc, book>>
+    /\ UNCHANGED <<counter, budget, dl, handlers, ctxDone, kind, removed, queue, cur, seen, stale, acc, book>>
 
 Return(h) ==
     /\ pc[h] = "running"
     /\ pc' = [pc EXCEPT ![h] = "select"]
     /\ cur' = [cur EXCEPT ![h] = NoMsg]
-    /\ UNCHANGED <<counter, budget, dl, handlers, ctxDone, removed, queue, seen, ninv, stale, acc, book>>
+    /\ UNCHANGED <<counter, budget, dl, handlers, ctxDone, kind, removed, queue, seen, ninv, stale, acc, book>>
 
 ---------------------------------------------------------------------------
 DoSend          == \E s \in Senders : Send(s)
@@ -239,7 +252,7 @@ DoStartDeliver  == \E m \in Msgs : StartDeliver(m)
 DoFailPublish   == \E m \in Msgs : FailPublish(m)
 DoTrySend       == \E d \in dl : TrySend(d)
 DoRegister      == \E h \in Handlers : Register(h)
-DoCancel        == \E h \in Handlers : Cancel(h)
+DoCancel        == \E h \in Handlers, k \in EndKinds : End(h, k)
 DoRemoveHandler == \E h \in Handlers : RemoveHandler(h)
 DoExitOnDone    == \E h \in Handlers : ExitOnDone(h)
 DoDequeue       == \E h \in Handlers : Dequeue(h)
@@ -262,6 +275,7 @@ TypeOK ==
     /\ \A d \in dl : d.m \in Msgs /\ d.i \in 1..Len(d.snap) /\ d.id \in Nat \ {0}
     /\ \A d, e \in dl : d.id = e.id => d = e
     /\ Range(handlers) \subseteq Handlers
+    /\ \A h \in Handlers : (kind[h] = "live") = ~ctxDone[h]
     /\ \A h \in Handlers :
           /\ pc[h] \in PCs
           /\ Range(queue[h]) \subseteq Msgs
